@@ -681,6 +681,27 @@ def o_ratio(a):
     return out
 
 
+def o_ratio_as_int(a):
+    """ time_ratio(as_int=True) is the rounded factor, and asking for it does not disturb later exact requests
+        (nor the other way round) — the same four arguments are used with and without as_int, in both orders """
+    import starsim as ss
+    u1, d1, u2, d2 = a['u1'], a['d1'], a['u2'], a['d2']
+    out = []
+    ref = exact_ratio(u1, d1, u2, d2)
+    seq = a.get('order', [True, False, True, False])
+    for as_int in seq:
+        r = ss.time_ratio(u1, d1, u2, d2, as_int=as_int)
+        if as_int:
+            lo, hi = math.floor(ref), math.ceil(ref)
+            want = [lo, hi] if abs((ref - lo) - Fr(1, 2)) < Fr(1, 10**9) else [int(round(float(ref)))]
+            if not (isinstance(r, (int, np.integer)) and int(r) in want):
+                out.append(F(dict(oracle='ratio-as-int'), f'time_ratio({u1!r},{d1},{u2!r},{d2}, as_int=True) = {r!r} but the rounded factor is {want} (exact {float(ref)!r}); call order {seq}'))
+        elif not close(ref, fr(r), 8 * U):
+            out.append(F(dict(oracle='ratio-closed-form-after-as-int'),
+                         f'time_ratio({u1!r},{d1},{u2!r},{d2}) = {r!r} after an as_int=True request with the same arguments, but (dt1*len(unit1))/(dt2*len(unit2)) = {float(ref)!r}; call order {seq}'))
+    return out
+
+
 def build(a, via=None):
     """ construct and initialise a real TimePar from oracle arguments """
     import starsim as ss
@@ -914,7 +935,7 @@ def o_parent_equiv(a):
     return out
 
 
-ORACLES = dict(ratio=o_ratio, steps=o_steps, timeprob=o_timeprob, timeprob_mono=o_timeprob_mono, rateprob=o_rateprob,
+ORACLES = dict(ratio=o_ratio, ratio_as_int=o_ratio_as_int, steps=o_steps, timeprob=o_timeprob, timeprob_mono=o_timeprob_mono, rateprob=o_rateprob,
                roundtrip=o_roundtrip, array_eq_scalar=o_array_eq_scalar, arith=o_arith, reject=o_reject, parent_equiv=o_parent_equiv)
 
 
@@ -940,6 +961,12 @@ def search(ctx):
         for k in range(ctx.budget(3, 12)):
             d1, d2 = (1.0, 1.0) if k == 0 else ((2.0, 2.0) if k == 1 and u1 != u2 else (pos_dt(rng), pos_dt(rng)))
             run_oracle(ctx, 'ratio', dict(u1=u1, d1=d1, u2=u2, d2=d2))
+    # the as_int form (used by Time.init for calendar units with a fractional dt), interleaved with exact requests
+    for u1, u2 in itertools.product(CANON, CANON):
+        for k in range(ctx.budget(2, 8)):
+            d1 = rng.choice([0.5, 0.25, 1.5, 2.5, 0.1, 1.0, 3.0]); d2 = rng.choice([1.0, 1.0, 2.0, 0.5])
+            order = rng.choice([[True, False], [False, True, False], [True, True, False, True]])
+            run_oracle(ctx, 'ratio_as_int', dict(u1=u1, d1=d1, u2=u2, d2=d2, order=order))
     for u1, u2, u3 in itertools.product(CANON, CANON, CANON):
         for k in range(ctx.budget(1, 4)):
             run_oracle(ctx, 'ratio', dict(u1=u1, d1=pos_dt(rng), u2=u2, d2=pos_dt(rng), u3=u3, d3=pos_dt(rng)))
